@@ -245,7 +245,7 @@ func c17StageCases(t *testing.T, r *rec.Rec) {
 func TestC17(t *testing.T) {
 	r := rec.New("C17")
 	defer r.Flush()
-	r.Rule("every Goldilocks-valued proof leaf position (schema walk of the proof: openings, initial-tree leaf elements, step evaluations, final-polynomial coefficients, PoW witness; ~10.9k per proof) of the listed instances x offset k*p for k in {1, 2, 2^64, largest k keeping the value < r}; deterministic enumeration sharded by position (quick: on A1 every position outside the query rounds, every position of query rounds 0, 13 and 27 and every 5th position of the other rounds with k=1; every 7th position of B1 and every 23rd of the others with a rotating offset; thorough: all positions x all four offsets x all five proofs).  Additionally one position of every leaf kind is re-encoded on the whole circuit compiled to R1CS with the commit range checker (one query round) and handed to gnark's solver.  Oracle: whole VerifierCircuit must not ACCEPT (candidates re-checked under bit decomposition).  Additionally (stage check) the verifier's canonical-form stage alone (first step of Verify) on A1/B1 with one rapid-drawn position holding a generated residue (edge-heavy: 0, 1, <2^32, around 2^31/2^32/2^63, just below p, uniform) -- canonical encoding must be ACCEPTED with the shipped hints, residue + m*p (m in {1, 2..9, 2^j, largest, random}) must be REJECTED.  Every case is non-trivial (offset >= p changes the encoding, not the residue); distinct = (instance, leaf, offset[, residue]).")
+	r.Rule("every Goldilocks-valued proof leaf position (schema walk of the proof: openings, initial-tree leaf elements, step evaluations, final-polynomial coefficients, PoW witness; ~10.9k per proof) of the listed instances x offset k*p for k in {1, 2, 2^64, largest k keeping the value < r}; deterministic enumeration sharded by position (quick: on A1 every position outside the query rounds, every position of query rounds 0, 13 and 27 and every 5th position of the other rounds with k=1; every 7th position of B1 and every 23rd of the others with a rotating offset; thorough: all positions x all four offsets x all five proofs; plus the positions outside the query rounds of proofs checked against a description with the proof-of-work difficulty lowered to 0/1/8).  Additionally one position of every leaf kind is re-encoded on the whole circuit compiled to R1CS with the commit range checker (one query round) and handed to gnark's solver.  Oracle: whole VerifierCircuit must not ACCEPT (candidates re-checked under bit decomposition).  Additionally (stage check) the verifier's canonical-form stage alone (first step of Verify) on A1/B1 with one rapid-drawn position holding a generated residue (edge-heavy: 0, 1, <2^32, around 2^31/2^32/2^63, just below p, uniform) -- canonical encoding must be ACCEPTED with the shipped hints, residue + m*p (m in {1, 2..9, 2^j, largest, random}) must be REJECTED.  Every case is non-trivial (offset >= p changes the encoding, not the residue); distinct = (instance, leaf, offset[, residue]).")
 	r.Assume("engine native flavour has exact range-check semantics (C06)", "the range-check sweep is evaluated before anything else, so a rejected case costs milliseconds")
 
 	var rp c17Case
@@ -290,6 +290,11 @@ func TestC17(t *testing.T) {
 				if !(l.Round < 0 || l.Round == 0 || l.Round == 13 || l.Round == 27 || pos%5 == 0) {
 					continue
 				}
+			} else if stride < 0 {
+				// configuration variants: positions outside the query rounds and every (-stride)-th inside
+				if !(l.Round < 0 || pos%(-stride) == 0) {
+					continue
+				}
 			} else if pos%stride != 0 {
 				continue
 			}
@@ -314,6 +319,9 @@ func TestC17(t *testing.T) {
 		for _, b := range corp.Names {
 			do(b, 1, func(int) []string { return c17OffsetNames })
 		}
+		for _, v := range []string{"A1@pow0", "B1@pow0", "A2@pow1", "B2@pow8"} {
+			do(v, -11, func(p int) []string { return c17OffsetNames })
+		}
 		r.Exhaustive(true)
 	} else {
 		do("A1", 0, func(int) []string { return []string{"1"} })
@@ -321,6 +329,8 @@ func TestC17(t *testing.T) {
 		for _, b := range []string{"A2", "B2", "B3"} {
 			do(b, 23, func(p int) []string { return []string{c17OffsetNames[(p/23)%4]} })
 		}
+		// the same proof against a description with proof-of-work difficulty 0
+		do("A1@pow0", -97, func(p int) []string { return []string{c17OffsetNames[p%3]} })
 	}
 	// one position of every Goldilocks leaf kind on the circuit compiled for the deployed backend
 	if rec.ShardIdx() == 7%rec.NShards() || rec.Thorough() && rec.ShardIdx() == 8%rec.NShards() {
